@@ -50,9 +50,9 @@ def is_html(scanner: BackwardScanner):
                 # boolean attribute
                 continue
             elif consume_attribute_with_unquoted_value(scanner):
-                # identifier was a part of unquoted value
-                ok = True
-                break
+                # identifier was a part of unquoted value: go on until
+                # tag name is found
+                continue
 
             # invalid tag
             break
@@ -153,7 +153,8 @@ def is_white_space(ch: str):
 
 def is_unquoted_value(ch: str):
     "Check if given code may belong to unquoted attribute value"
-    return ch and ch != Chars.Equals and not is_white_space(ch) and not is_quote(ch)
+    return ch and ch != Chars.Equals and ch != Chars.AngleLeft and ch != Chars.AngleRight \
+        and not is_white_space(ch) and not is_quote(ch)
 
 
 def is_open_bracket(ch: int):
